@@ -74,6 +74,17 @@ def get_roles(P):
         if isinstance(x, ast.Subscript) and isinstance(x.value, ast.Name) and x.value.id == roles['route'] and isinstance(x.slice, ast.Slice) \
                 and isinstance(x.slice.lower, ast.Name) and isinstance(x.slice.upper, ast.Name):
             roles.setdefault('cursor', x.slice.lower.id)
+    if 'look_back' not in roles:
+        # the saved state may be a small record object instead of a list: `saved = stack.pop(); route, pnode = saved.route, saved.node ...`
+        for st in walk_shallow(f.node):
+            if isinstance(st, ast.Assign) and isinstance(st.targets[0], ast.Name) and isinstance(st.value, ast.Call) and call_attr(st.value) == 'pop' \
+                    and isinstance(st.value.func.value, ast.Name) and not st.value.args:
+                rec = st.targets[0].id
+                fields = {x.attr for x in walk_shallow(f.node) if isinstance(x, ast.Attribute) and isinstance(x.value, ast.Name) and x.value.id == rec}
+                pushes_ = [c for c in walk_shallow(f.node) if isinstance(c, ast.Call) and call_attr(c) == 'append' and isinstance(c.func.value, ast.Name)
+                           and c.func.value.id == st.value.func.value.id]
+                if len(fields) >= 5 and len(pushes_) >= 2:
+                    roles['look_back'] = st.value.func.value.id
     for need in ('params', 'hooks', 'look_back', 'kidx', 'pnode', 'idx', 'cursor'):
         if need not in roles:
             raise AnalysisError(f'RadiDict.get: cannot identify the `{need}` variable by role')
@@ -94,6 +105,8 @@ def check_lookback(P, R, rid, what=('params', 'hooks')):
     for i, c in enumerate(pushes):
         rec = c.args[0] if c.args else None
         elts = rec.elts if isinstance(rec, (ast.List, ast.Tuple)) else []
+        if isinstance(rec, ast.Call) and len(rec.args) + len(rec.keywords) >= 5:
+            elts = list(rec.args) + [k.value for k in rec.keywords]      # a record object built from the same values
         for role in what:
             name = roles[role]
             refs = [e for e in elts if name in names_loaded(e)]
@@ -201,7 +214,14 @@ def check(P, R):
     # ---- c
     _, pushes = check_lookback(P, R, 'C01.c', what=('params',))
     # the literal-branch push is conditioned on the wildcard marker ending the index
-    lit_push = [c for c in pushes if is_const(c.args[0].elts[-1], True)] if pushes else []
+    def _last_field(c_):
+        r_ = c_.args[0] if c_.args else None
+        if isinstance(r_, (ast.List, ast.Tuple)) and r_.elts:
+            return r_.elts[-1]
+        if isinstance(r_, ast.Call) and (r_.keywords or r_.args):
+            return r_.keywords[-1].value if r_.keywords else r_.args[-1]
+        return None
+    lit_push = [c for c in pushes if _last_field(c) is not None and is_const(_last_field(c), True)] if pushes else []
     ok = False
     for c in lit_push:
         t = enclosing(c, ast.If)
